@@ -593,6 +593,14 @@ class Inliner:
     # ---- resolution
     def _resolve(self, call: ast.Call, owner, module):
         f = call.func
+        # `super().m(...)` inside m itself (an override that delegates, e.g. `def solve(..): return super().solve(..)`): the
+        # parent's body runs on the same object, so for this class the method IS the parent's body with the surrounding code
+        if isinstance(f, ast.Attribute) and isinstance(f.value, ast.Call) and isinstance(f.value.func, ast.Name) and f.value.func.id == "super" \
+                and not f.value.args and owner is not None and getattr(self, "_current", None) is not None and self._current.name == f.attr:
+            r = self.ct.lookup(owner, f.attr, after=owner)
+            if r is not None and not any(isinstance(n, ast.Call) and isinstance(n.func, ast.Name) and n.func.id == "super" for n in ast.walk(r[1])):
+                return r[0], r[1], "super"
+            return None
         if isinstance(f, ast.Attribute) and isinstance(f.value, ast.Name) and owner is not None:
             recv = f.value.id
             if recv in ("self", "cls"):
@@ -634,8 +642,8 @@ class Inliner:
                     return None, fn, None
         return None
 
-    def _inlinable(self, fn: ast.FunctionDef) -> bool:
-        if fn.name in self.anchors or fn.name.startswith("__"):
+    def _inlinable(self, fn: ast.FunctionDef, via_super: bool = False) -> bool:
+        if (fn.name in self.anchors and not via_super) or fn.name.startswith("__"):
             return False
         decos = [ast.unparse(d) for d in fn.decorator_list if not _transparent_decorator(d)]
         if any(d not in ("staticmethod", "classmethod") for d in decos):
@@ -659,8 +667,10 @@ class Inliner:
         if r is None:
             return None
         k, fn, recv = r
-        if not self._inlinable(fn):
+        if not self._inlinable(fn, via_super=(recv == "super")):
             return None
+        if recv == "super":
+            recv = "self"
         decos = [ast.unparse(d) for d in fn.decorator_list if not _transparent_decorator(d)]
         params = [a.arg for a in fn.args.args]
         defaults = dict(zip(params[len(params) - len(fn.args.defaults):], fn.args.defaults))
@@ -849,6 +859,7 @@ class Inliner:
 
     # ---- statement lists
     def run_function(self, fn: ast.FunctionDef, owner, module, depth: int = 0):
+        self._current = fn
         self.inline_exprs(fn, owner, module)
         names = _assigned_names(fn.body)
         fn.body = self._stmts(fn.body, owner, module, names, 0)
@@ -870,6 +881,21 @@ class Inliner:
                 h.body = self._stmts(h.body, owner, module, names, depth)
         if depth >= self.max_depth:
             return [st]
+        # `if self._predicate(...):` with a multi-statement predicate helper: evaluate it into a flag first, inline that, and
+        # fold the flag back into the test (`if A: t = False else: t = B` ; `if t: X`  ==  `if (not A) and B: X`)
+        if isinstance(st, ast.If) and depth < self.max_depth:
+            inner = st.test.operand if isinstance(st.test, ast.UnaryOp) and isinstance(st.test.op, ast.Not) else st.test
+            if isinstance(inner, ast.Call):
+                r = self._resolve(inner, owner, module)
+                if r is not None and self._inlinable(r[1]):
+                    flag = f"flag__i{next(_ctr)}"
+                    assign = ast.copy_location(ast.Assign(targets=[ast.Name(id=flag, ctx=ast.Store())], value=inner), st)
+                    pre = self._one(assign, owner, module, names, depth)
+                    cond = _flag_condition(pre, flag)
+                    if cond is not None:
+                        lead, expr = cond
+                        st.test = ast.copy_location(expr if inner is st.test else ast.UnaryOp(op=ast.Not(), operand=expr), st.test)
+                        return lead + [ast.fix_missing_locations(st)]
         call = None
         if isinstance(st, ast.Expr) and isinstance(st.value, ast.Call):
             call, want = st.value, False
@@ -899,6 +925,54 @@ class Inliner:
         new = [ast.fix_missing_locations(ast.copy_location(s, st) if not hasattr(s, "lineno") else s) for s in new]
         # helpers calling helpers
         return self._stmts(new, owner, module, names, depth + 1)
+
+
+def _flag_condition(stmts, flag):
+    """The boolean expression a flag ends up with after `stmts` (the inlined body of a predicate helper), together with the
+    statements that must still run before it; None when the shape is not a chain of guard clauses assigning constants /
+    expressions to the flag."""
+    def expr_of(block):
+        # returns an expression for the flag's final value in this block, or None
+        if not block:
+            return None
+        *lead, last = block
+        if lead:
+            return None
+        if isinstance(last, ast.Assign) and len(last.targets) == 1 and isinstance(last.targets[0], ast.Name) and last.targets[0].id == flag:
+            return last.value
+        if isinstance(last, ast.If) and last.orelse:
+            a, b = expr_of(last.body), expr_of(last.orelse)
+            if a is None or b is None:
+                return None
+            t = last.test
+            # ite(t, a, b) as boolean algebra
+            return ast.BoolOp(op=ast.Or(), values=[ast.BoolOp(op=ast.And(), values=[copy.deepcopy(t), a]),
+                                                  ast.BoolOp(op=ast.And(), values=[ast.UnaryOp(op=ast.Not(), operand=copy.deepcopy(t)), b])])
+        return None
+
+    # `flag = r` at the end: the flag is whatever r was decided to be
+    if stmts and isinstance(stmts[-1], ast.Assign) and len(stmts[-1].targets) == 1 and isinstance(stmts[-1].targets[0], ast.Name) \
+            and stmts[-1].targets[0].id == flag and isinstance(stmts[-1].value, ast.Name) and stmts[-1].value.id != flag:
+        return _flag_condition(stmts[:-1], stmts[-1].value.id)
+    # leading statements that do not touch the flag stay in front (parameter bindings etc.)
+    k = 0
+    while k < len(stmts) and not any(isinstance(n, ast.Name) and n.id == flag for n in ast.walk(stmts[k])):
+        k += 1
+    lead, rest = stmts[:k], stmts[k:]
+    # `flag = None` initialisation followed by the deciding statement
+    if rest and isinstance(rest[0], ast.Assign) and isinstance(rest[0].value, ast.Constant) and rest[0].value.value is None and len(rest) > 1:
+        rest = rest[1:]
+    # guard-clause form: `if A: flag = c` ; `flag = B`   ==   ite(A, c, B)
+    if len(rest) == 2 and isinstance(rest[0], ast.If) and not rest[0].orelse:
+        a = expr_of(rest[0].body)
+        b = expr_of([rest[1]])
+        if a is not None and b is not None:
+            t = rest[0].test
+            e = ast.BoolOp(op=ast.Or(), values=[ast.BoolOp(op=ast.And(), values=[copy.deepcopy(t), a]),
+                                               ast.BoolOp(op=ast.And(), values=[ast.UnaryOp(op=ast.Not(), operand=copy.deepcopy(t)), b])])
+            return lead, e
+    e = expr_of(rest)
+    return (lead, e) if e is not None else None
 
 
 def inline_helpers(ct) -> list[str]:
